@@ -1,5 +1,7 @@
 package code
 
+import "math"
+
 // A Label represent a location in the code.
 type Label uint
 
@@ -23,6 +25,24 @@ func NewBuilder(source string) *Builder {
 	}
 }
 
+// A LimitError is the value of the panic raised by the builder when the code it
+// is asked to build exceeds a limit of the bytecode format.
+type LimitError struct {
+	Msg string
+}
+
+func (e *LimitError) Error() string {
+	return e.Msg
+}
+
+// jumpOffset checks that a jump distance can be encoded.
+func jumpOffset(d int) Offset {
+	if d < math.MinInt16 || d > math.MaxInt16 {
+		panic(&LimitError{Msg: "control structure too long"})
+	}
+	return Offset(d)
+}
+
 // Emit adds an opcode (associating it with a source code line).
 func (c *Builder) Emit(opcode Opcode, line int) {
 	c.code = append(c.code, opcode)
@@ -36,7 +56,7 @@ func (c *Builder) EmitJump(opcode Opcode, lbl Label, line int) {
 	jumpToAddr, ok := c.jumpTo[lbl]
 	addr := len(c.code)
 	if ok {
-		opcode = opcode.SetOffset(Offset(jumpToAddr - addr))
+		opcode = opcode.SetOffset(jumpOffset(jumpToAddr - addr))
 	} else {
 		c.jumpFrom[lbl] = append(c.jumpFrom[lbl], addr)
 	}
@@ -52,7 +72,7 @@ func (c *Builder) EmitLabel(lbl Label) {
 	}
 	c.jumpTo[lbl] = addr
 	for _, jumpFromAddr := range c.jumpFrom[lbl] {
-		c.code[jumpFromAddr] = c.code[jumpFromAddr].SetOffset(Offset(addr - jumpFromAddr))
+		c.code[jumpFromAddr] = c.code[jumpFromAddr].SetOffset(jumpOffset(addr - jumpFromAddr))
 	}
 	delete(c.jumpFrom, lbl)
 }
